@@ -235,11 +235,11 @@ func init() {
 					all = false
 				}
 			}
-			if all {
-				for _, u := range r.threads {
-					if u != c.t {
-						join(c.t.vc, u.vc)
-					}
+			// quiescence: every other goroutine has finished or is blocked; the observer is ordered
+			// after everything they did so far
+			for _, u := range r.threads {
+				if u != c.t {
+					join(c.t.vc, u.vc)
 				}
 			}
 			return invDone, r.tt.Bool(all)
